@@ -610,11 +610,49 @@ def flatten(repo: Repo, ci: Optional[ClassInfo], fn: ast.FunctionDef, sf: Option
 MAX_UNROLL = 16
 
 
+def _const_str(e: ast.expr) -> Optional[str]:
+    """Value of a string expression made of literals only: "a" + "b", f"x_{'y'}", "%s_z" % "a", "{}".format("a")."""
+    if isinstance(e, ast.Constant) and isinstance(e.value, str):
+        return e.value
+    if isinstance(e, ast.BinOp) and isinstance(e.op, ast.Add):
+        a, b = _const_str(e.left), _const_str(e.right)
+        return a + b if a is not None and b is not None else None
+    if isinstance(e, ast.JoinedStr):
+        parts = []
+        for v in e.values:
+            if isinstance(v, ast.Constant) and isinstance(v.value, str):
+                parts.append(v.value)
+            elif isinstance(v, ast.FormattedValue) and v.format_spec is None and v.conversion == -1:
+                inner = _const_str(v.value)
+                if inner is None and isinstance(v.value, ast.Constant) and isinstance(v.value.value, int):
+                    inner = str(v.value.value)
+                if inner is None:
+                    return None
+                parts.append(inner)
+            else:
+                return None
+        return "".join(parts)
+    if isinstance(e, ast.BinOp) and isinstance(e.op, ast.Mod):
+        a, b = _const_str(e.left), _const_str(e.right)
+        if a is not None and b is not None and a.count("%s") == 1 and a.count("%") == 1:
+            return a.replace("%s", b)
+    if isinstance(e, ast.Call) and isinstance(e.func, ast.Attribute) and e.func.attr == "format" and len(e.args) == 1 and not e.keywords:
+        a, b = _const_str(e.func.value), _const_str(e.args[0])
+        if a is not None and b is not None and a.count("{}") == 1 and a.count("{") == 1:
+            return a.replace("{}", b)
+    return None
+
+
 class _AttrConst(ast.NodeTransformer):
     """getattr(x, "name") -> x.name ; setattr(x, "name", v) as a statement -> x.name = v"""
 
     def visit_Call(self, node):
         node = self.generic_visit(node)
+        if isinstance(node.func, ast.Name) and node.func.id in ("getattr", "setattr") and len(node.args) >= 2 \
+                and not isinstance(node.args[1], ast.Constant):
+            cs = _const_str(node.args[1])
+            if cs is not None:
+                node.args[1] = ast.copy_location(ast.Constant(value=cs), node.args[1])
         if isinstance(node.func, ast.Name) and node.func.id == "getattr" and len(node.args) == 2 and not node.keywords \
                 and isinstance(node.args[1], ast.Constant) and isinstance(node.args[1].value, str) and node.args[1].value.isidentifier():
             return ast.copy_location(ast.Attribute(value=node.args[0], attr=node.args[1].value, ctx=ast.Load()), node)
